@@ -1,9 +1,21 @@
-(* C06 property theorems (statements closed by [exact]); filled as the proofs land. *)
-From Tbfmm Require Import Base.Prelude Tree.GroupDefs Tree.BuildDefs Tree.Invariant.
+(* C06 — construction stores every particle once, in the right leaf (combinatorial half).
+   Statements only; proofs in Tree/BuildProofs.v.  The bit-exact copy of the data values and the zero
+   initialisation are decided per run by the harness (data compared bit for bit with the input). *)
+From Tbfmm Require Import Base.Prelude Index.MortonDefs Tree.GroupDefs Tree.BuildDefs Tree.Invariant Tree.BuildProofs.
 Local Open Scope Z_scope.
 
-(* non-vacuity: the model builds a tree satisfying the invariant on a concrete input *)
-Theorem C06_example_tree_ok :
-  tree_okb (fun i => i / 8) 3 2 false (build (fun i => i / 8) 3 2 false [5;5;63;0;9;12;9]) = true.
+(* every input particle is stored exactly once (the stored original indices are a permutation of 0..n-1) and the leaf that
+   holds particle p is the leaf of p's index - for every input, height, block size, grouping mode *)
+Theorem C06_build_particles : forall par H B mode idx, 1 <= H -> 1 <= B -> idx <> [] -> Forall (fun c => 0 <= c) idx ->
+  particles_ok idx (build par H B mode idx).
+Proof. exact build_particles. Qed.
+Print Assumptions C06_build_particles.
+
+Theorem C06_build_leaf_set : forall par H B mode idx, 1 <= H -> 1 <= B -> idx <> [] -> Forall (fun c => 0 <= c) idx ->
+  forall i, In i (flat_map pg_indices (t_pgroups (build par H B mode idx))) <-> In i idx.
+Proof. exact build_leaf_set. Qed.
+Print Assumptions C06_build_leaf_set.
+
+Example C06_example :
+  map lf_parts (all_leaves (build (parent 3) 3 2 false [5;5;63;0;9;12;9])) = [[3]; [0; 1]; [6; 4]; [5]; [2]].
 Proof. vm_compute. reflexivity. Qed.
-Print Assumptions C06_example_tree_ok.
